@@ -338,6 +338,7 @@ func checkC13(ctx *Ctx, r *Report) {
 	c13HuntedRules(ctx, r, ts, ifChain(top))
 	c13NilTestExcludesConstantRefs(ctx, r, ts, recEquality.define)
 	c13NumericUnionBranches(ctx, r, ts)
+	c13FourthHunt(ctx, r, ts, ifChain(top))
 	for i, b := range ifChain(top) {
 		if b.cond == nil {
 			continue
@@ -1360,7 +1361,7 @@ func c13HuntedRules(ctx *Ctx, r *Report, ts *tmplSet, branches []tmplBranch) {
 		}
 	}
 	r.Count("hunted clauses of the equality template", 3)
-	r.Check(strings.Contains(anyCond, "resolveRefs"), "skeleton/equality-any-through-reference", "type_equality_check DeepEqual branch condition", token.NoPos, "selected on the resolved type",
+	r.Check(regexp.MustCompile(`\(resolveRefs [^)]*\)\.IsAny`).MatchString(anyCond), "skeleton/equality-any-through-reference", "type_equality_check DeepEqual branch condition", token.NoPos, "selected on the resolved type",
 		file+": the branch comparing with reflect.DeepEqual is selected by `"+anyCond+"`, which is false for a *reference* to an `any` type: the value is then compared with `!=` — Equals panics (comparing uncomparable type map[string]interface {}) on its own receiver")
 	// (b), (c): the scalar branch
 	for _, b := range branches {
@@ -1691,4 +1692,115 @@ func c08StrictElementNull(ctx *Ctx, r *Report, ts *tmplSet) {
 	r.Count("element-level null tests of the strict decoder template", 1)
 	r.Check(refuses, "skeleton/strict-element-null-rejected", "strict_unmarshal_field_type refuses null for non-nullable elements", token.NoPos, ts.file[recStrict.define]+": a raw `null` reached at depth > 1 for a non-nullable type is reported",
 		ts.file[recStrict.define]+": the null test only exists for the fields of a struct: `tags: [...string]` accepts [\"a\", null] (stored \"\"), `limits: [string]: int` accepts {\"cpu\": null} (stored 0), `opts: [...#Opt]` accepts [null] — documents the schema rejects")
+}
+
+// c13FourthHunt — fourth hunt:
+//   - what the Go type formatter *declares* `any` holds maps and slices once decoded; `!=` on such interface values
+//     panics. Every scalar kind doFormatType turns into `any` (today: null) is named by the condition of the branch of
+//     the equality template that compares with reflect.DeepEqual;
+//   - a dataquery slot is an interface value; the branch that calls its Equals tests it against nil first;
+//   - (finding) the Equals of a dataquery variant names the package `variants` in literal text: nothing imports it.
+func c13FourthHunt(ctx *Ctx, r *Report, ts *tmplSet, branches []tmplBranch) {
+	n := 0
+	// (a)
+	fn := ctx.LookupMethod("internal/jennies/golang", "typeFormatter", "doFormatType")
+	fd, _ := ctx.DeclOf(fn)
+	p := ctx.Pkg("internal/jennies/golang")
+	if fd == nil || p == nil {
+		r.Undecided("anchor lost: golang.typeFormatter.doFormatType")
+	} else {
+		info := p.TypesInfo
+		var kinds []string
+		ast.Inspect(fd.Body, func(m ast.Node) bool {
+			is, ok := m.(*ast.IfStmt)
+			if !ok {
+				return true
+			}
+			be, ok := ast.Unparen(is.Cond).(*ast.BinaryExpr)
+			if !ok || be.Op != token.EQL {
+				return true
+			}
+			kindOf := func(e ast.Expr) string {
+				if sel, ok := ast.Unparen(e).(*ast.SelectorExpr); ok {
+					if c, ok := info.Uses[sel.Sel].(*types.Const); ok && strings.HasPrefix(c.Name(), "Kind") {
+						return c.Name()
+					}
+				}
+				return ""
+			}
+			k := kindOf(be.Y)
+			if k == "" {
+				k = kindOf(be.X)
+			}
+			if k == "" {
+				return true
+			}
+			becomesAny := false
+			ast.Inspect(is.Body, func(q ast.Node) bool {
+				if as, ok := q.(*ast.AssignStmt); ok && len(as.Rhs) == 1 && kindOf(as.Rhs[0]) == "KindAny" {
+					becomesAny = true
+				}
+				return true
+			})
+			if becomesAny {
+				kinds = append(kinds, k)
+			}
+			return true
+		})
+		if len(kinds) == 0 {
+			r.Undecided("anchor changed: golang.doFormatType turns no scalar kind into any")
+		}
+		var deep *tmplBranch
+		for i := range branches {
+			if branches[i].cond != nil && strings.Contains(tmplText(branches[i].body), "DeepEqual") {
+				deep = &branches[i]
+				break
+			}
+		}
+		if deep == nil {
+			r.Undecided("anchor changed: no branch of type_equality_check compares with reflect.DeepEqual")
+		} else {
+			for _, k := range kinds {
+				pred := "Is" + strings.TrimPrefix(k, "Kind")
+				n++
+				r.Check(strings.Contains(deep.cond.String(), "."+pred), "skeleton/go-declared-any-compared-deeply", "type_equality_check compares the kind "+k+", declared any", token.NoPos, "the reflect.DeepEqual branch is selected by "+pred,
+					ts.file[recEquality.define]+": doFormatType declares a scalar of kind "+k+" `any`, and the equality template sends it to the `!=` branch of scalars: `n: null` decoded from {\"n\":{\"k\":1}} makes a.Equals(a) panic — comparing uncomparable type map[string]interface {}")
+			}
+		}
+	}
+	// (b)
+	slots := 0
+	for i, b := range branches {
+		if b.cond == nil || !strings.Contains(b.cond.String(), "IsDataqueryComposableSlot") {
+			continue
+		}
+		slots++
+		txt := tmplText(b.body)
+		if !strings.Contains(txt, ".Equals(") {
+			continue
+		}
+		n++
+		r.Check(strings.Contains(txt, "== nil") || strings.Contains(txt, "!= nil"), "skeleton/go-slot-equality-nil-guarded", fmt.Sprintf("type_equality_check branch #%d calls Equals on a dataquery slot", i+1), token.NoPos, "after a comparison with nil",
+			ts.file[recEquality.define]+": the slot is declared variants.Dataquery, an interface, and its Equals is called unconditionally: {\"title\":\"t\"} decoded twice (slot absent) makes a.Equals(b) panic — nil pointer dereference; same for a null element in a list of slots")
+	}
+	if slots == 0 {
+		r.Undecided("anchor changed: no branch of type_equality_check for dataquery slots")
+	}
+	// (c)
+	found := false
+	for _, name := range ts.names() {
+		if !strings.Contains(ts.file[name], "dataquery_equality_method") {
+			continue
+		}
+		found = true
+		literal := regexp.MustCompile(`\bvariants\.`).MatchString(tmplText(ts.trees[name].Root))
+		n++
+		r.Check(!literal, "skeleton/go-dataquery-equals-imports-variants", "golang dataquery_equality_method.tmpl names the variants package", token.NoPos, "through an action that registers the import",
+			ts.file[name]+": `variants.Dataquery` is literal text and nothing registers <package_root>/cog/variants in the file's imports (goimports runs with FormatOnly): a dataquery variant generated with generate_equal does not compile — undefined: variants — unless a slot field of the same file happens to import it")
+	}
+	if !found {
+		r.Undecided("anchor lost: golang dataquery_equality_method template")
+	}
+	r.Count("hunted clauses of Equals (4th hunt)", n)
+	r.Floor("hunted clauses of Equals (4th hunt)", 3)
 }
